@@ -439,25 +439,25 @@ func checkC18(tier string) *Report {
 				rep.Violate(Violation{Kind: "probe-panic", Group: p.label, Sig: psig, Replay: replay, What: "probe panicked: " + r.Panic})
 				continue
 			}
-			sizeRefusal := !r.Success && strings.Contains(r.AckErr(), "passthrough payload size")
 			over := uint64(p.n) > uint64(limit)
 			innerCalled := len(ins[w].Rec.Find("inner.OnRecvPacket")) > 0
 			if p.n > 0 {
 				rep.Distinct(fmt.Sprintf("limit=%d|%s", limit, p.label))
 			}
+			// The verdicts do not depend on the wording of the refusal: an oversize payload must be refused
+			// before the wrapped application is called; a payload within the limit must be executed whenever
+			// nothing else can refuse it (memo below ICS-20's own cap, route not paused) — which makes "refused
+			// for the size reason" impossible without reading the reason.
 			switch {
 			case over:
 				rep.Outcome("refused-for-size")
-				if !sizeRefusal {
+				if r.Success {
 					rep.Violate(Violation{Kind: "oversize-not-refused", Group: p.label, Sig: psig, Replay: replay,
-						What: fmt.Sprintf("passthrough of %d bytes with limit %d: expected the size refusal, got success=%v err=%q", p.n, limit, r.Success, trunc(r.AckErr(), 200))})
+						What: fmt.Sprintf("passthrough of %d bytes with limit %d was executed (success ack)", p.n, limit)})
 				}
 				if innerCalled {
-					rep.Violate(Violation{Kind: "size-check-after-ics20", Group: p.label, Sig: psig, Replay: replay, What: "the wrapped ICS-20 application was called before the size refusal"})
+					rep.Violate(Violation{Kind: "size-check-after-ics20", Group: p.label, Sig: psig, Replay: replay, What: fmt.Sprintf("passthrough of %d bytes with limit %d: the wrapped ICS-20 application was called before the refusal", p.n, limit)})
 				}
-			case sizeRefusal:
-				rep.Violate(Violation{Kind: "within-limit-refused-for-size", Group: p.label, Sig: psig, Replay: replay,
-					What: fmt.Sprintf("passthrough of %d bytes with limit %d refused for size: %s", p.n, limit, r.AckErr())})
 			case len(p.pkt.Memo) <= 32768 && !(p.route == "cctp" && cctpPaused):
 				rep.Outcome("within-limit-executed")
 				if !r.Success {
